@@ -358,7 +358,11 @@ def main():
     mode = req["mode"]
     out = {}
     try:
-        if mode == "probe":
+        if mode == "script":
+            setup_paths(req.get("repo", "/repo"))
+            mod = importlib.import_module(req["module"])
+            out = {"replay": mod.run(req)}
+        elif mode == "probe":
             setup_paths(req.get("repo", "/repo"))
             from native import probes
             out = probes.run()
